@@ -450,6 +450,41 @@ class Normaliser:
                     self.note("N19-limb-pairs-as-slice")
                     i = j + 1
                     continue
+                # N20: an unaligned 8-byte read through a raw pointer into a byte slice,
+                #   u64::from_le_bytes(unsafe { *S.as_ptr().add(OFF).cast() })                        ->  le_u64_at(S, OFF)
+                #   let P = S.as_ptr_range().end; .. u64::from_be_bytes(unsafe { *P.sub(OFF).cast() })  ->  be_u64_before_end(S, OFF)
+                # The callee (unit side, label A) REQUIRES the read to lie inside the slice (OFF + 8 <= len, resp. 8 <= OFF <= len:
+                # the memory-safety condition becomes a proof obligation) and ensures the value of the eight bytes.
+                bt = [x.text for x in body]
+                prev = [x.text for x in out[-4:]]
+                nxt = toks[j + 1].text if j + 1 < n else ""
+                if len(bt) > 9 and bt[0] == "*" and bt[2:8] == [".", "as_ptr", "(", ")", ".", "add"] and bt[8] == "(" and bt[-4:] == [".", "cast", "(", ")"] \
+                        and match_close(body, 8) == len(bt) - 5 and prev == ["u64", "::", "from_le_bytes", "("] and nxt == ")":
+                    ws = out[-4].ws
+                    del out[-4:]
+                    new = mk("le_u64_at ( %s ," % bt[1]) + body[9:len(bt) - 5] + mk(")")
+                    new[0].ws = ws
+                    out += new
+                    self.note("N20-le-u64-at")
+                    i = j + 2
+                    continue
+                if len(bt) > 7 and bt[0] == "*" and bt[2:4] == [".", "sub"] and bt[4] == "(" and bt[-4:] == [".", "cast", "(", ")"] \
+                        and match_close(body, 4) == len(bt) - 5 and prev == ["u64", "::", "from_be_bytes", "("] and nxt == ")":
+                    ptr = bt[1]
+                    # the pointer must be bound exactly once by `let P = S.as_ptr_range().end;`
+                    pat = ["let", ptr, "=", None, ".", "as_ptr_range", "(", ")", ".", "end", ";"]
+                    hit = [q for q in range(len(out) - len(pat) + 1) if all(p is None or out[q + r].text == p for r, p in enumerate(pat))]
+                    if len(hit) == 1 and out[hit[0] + 3].kind == "id":
+                        src = out[hit[0] + 3].text
+                        del out[hit[0]:hit[0] + len(pat)]
+                        ws = out[-4].ws
+                        del out[-4:]
+                        new = mk("be_u64_before_end ( %s ," % src) + body[5:len(bt) - 5] + mk(")")
+                        new[0].ws = ws
+                        out += new
+                        self.note("N20-be-u64-before-end")
+                        i = j + 2
+                        continue
                 raise NormError("unsupported unsafe block: " + inner[:60])
             out.append(t)
             i += 1
